@@ -483,8 +483,56 @@ def h_cli_config():
     return ['cli_config', 'started' if started else 'refused']
 
 
+def h_controller(kind):
+    """controller level (its own log lines): IKE_SA_INIT requests the responder ignores or cannot parse (Message ID != 0, INITIATOR flag clear,
+    truncated payload chain, unknown peer), an unknown SPI, and a normal exchange; the pre-shared keys of the connection (concrete configuration
+    strings) appear in no record of level INFO or above"""
+    from symx import core
+    eng = core.engine()
+    m = MODS['message']
+    del RECORDS[:]
+    del WIRE[:]
+    c = world.Ctl()
+    ep = c.new_initiator()
+    tsi, tsr = c.acquire_tss()
+    m1 = bytes(ep.call(ep.obj.process_acquire, tsi, tsr, 1))
+    mid = eng.sym_int('mid', 0, 0xFFFFFFFF)
+    flags = eng.sym_int('flags', 0, 255)
+    if kind == 'ignored_init':
+        eng.assume((flags & 0x20) == 0)
+        d = world.restamp(m1, None, flags=flags, mid=mid)
+    elif kind == 'truncated_init':
+        cut = eng.sym_int('cut', 28, len(m1) - 1)
+        d = m1[:eng.concretize(cut, 28, len(m1) - 1) if not isinstance(cut, int) else cut]
+    elif kind == 'unknown_spi':
+        d = world.restamp(m1, None, exchange=37, flags=flags, mid=mid)
+    else:
+        d = m1
+    for src in (world.IP1, world.ip_address('203.0.113.5')):
+        try:
+            r = c.dispatch(d, peer_addr=src)
+        except Exception:      # noqa - what the main loop would swallow
+            r = None
+        if kind == 'normal' and r is not None and src == world.IP1:
+            x = ep.call(ep.obj.process_message, r)
+            if x is not None:
+                r2 = c.dispatch(x)
+                if r2 is not None:
+                    ep.call(ep.obj.process_message, r2)
+    secrets = [('the pre-shared key of alice', b'testing2'), ('the pre-shared key of bob', b'testing')]
+    for level, text in RECORDS:
+        if level < 20:
+            continue
+        for name, raw in secrets:
+            if raw.decode() in text or raw.hex() in text:
+                return {'class': ['controller'], 'violation': f'{kind}: a controller log record of level {level} contains {name}: {text[:160]!r}'}
+    return ['controller', kind, sum(1 for l, _ in RECORDS if l >= 20)]
+
+
 def build_instances(tier):
     inst = []
+    for kind in ('ignored_init', 'truncated_init', 'unknown_spi', 'normal'):
+        inst.append(Instance(f'controller log: {kind}', h_controller, (kind,), engine_kw={'max_ticks': 10 ** 7}, must_reach=[('records', lambda o: o[0] == 'controller')]))
     inst.append(Instance('configuration errors never print a pre-shared key', h_cli_config, (), native=common.native_of(h_cli_config), engine_kw={'max_ticks': 10 ** 7},
                          must_reach=[('started', lambda o: o == ['cli_config', 'started']), ('refused', lambda o: o == ['cli_config', 'refused'])]))
     for k in ((0, 1, 2) if tier == 'quick' else (0, 1, 2, 3)):
